@@ -1,0 +1,55 @@
+//go:build verif
+
+// Contracts for the deductive verifier in /verif (govc); comments only.
+package x25519ell2
+
+// package-level field constants, assigned once by the package initialiser
+//@ spec fn FE_A() Int
+//@ spec fn FE_NEG2() Int
+//@ globalinv feOK := feOne != nil && feOne.fv == 1 && feA != nil && feA.fv == FE_A() && feNegTwo != nil && feNegTwo.fv == FE_NEG2()
+
+// The inverse Elligator 2 map as the code computes it (c = 1/sqrt(-2u(u+A)); r = u*c or (u+A)*c by the
+// low tweak bit; the root with even 2r is taken), as an expression over the abstract field operations
+//@ spec fn REPC(u Int) Int := FSQRT(1, FMUL(FMUL(u, FADD(u, FE_A())), FE_NEG2()))
+//@ spec fn REPR(u Int, lowbit Int) Int := FMUL(ite(lowbit == 1, FADD(u, FE_A()), u), REPC(u))
+//@ spec fn REPVAL(u Int, lowbit Int) Int := ite(at(FBYTES(FMUL32(REPR(u, lowbit), 2)), 0) % 2 == 1, FNEG(REPR(u, lowbit)), REPR(u, lowbit))
+
+//@ func uToRepresentative(representative, u, tweak) (ok)
+//@   serves C07 C10
+//@   requires representative != nil && u != nil
+//@   modifies *representative
+//@   ghost U := u.fv
+//@   ensures [C07:exists_iff_square] ok == (FISSQ(1, FMUL(FMUL(U, FADD(U, FE_A())), FE_NEG2())) == 1)
+//@   ensures [C07:low_bytes_are_the_representative] ok ==> forall(i, 0, 31, at(seq(representative), i) == at(FBYTES(REPVAL(U, tweak % 2)), i))
+//@   ensures [C07:top_bits_from_tweak] ok ==> at(seq(representative), 31) == bor(at(FBYTES(REPVAL(U, tweak % 2)), 31), band(tweak, 192))
+//@   ensures [C07:untouched_without_representative] !ok ==> seq(representative) == old(seq(representative))
+
+// Decoding ignores the two top bits: the field element is read from the representative with bits 254 and
+// 255 cleared, and the public key is the serialised Elligator 2 image of exactly that element.
+//@ func RepresentativeToPublicKey(publicKey, representative) ()
+//@   serves C07 C10
+//@   requires publicKey != nil && representative != nil
+//@   modifies *publicKey
+//@   assert_at field.Element).SetBytes#1 [C07:top_two_bits_ignored] len(arg1) == 32 && forall(i, 0, 31, at(seq(arg1), i) == at(old(seq(representative)), i)) && at(seq(arg1), 31) == at(old(seq(representative)), 31) % 64
+//@   assert_at elligator2.MontgomeryFlavor#1 [C07:map_applied_to_clamped] arg0.fv == FFROM(seq(clamped))
+//@   assert_at field.Element).Bytes#1 [C07:serialises_the_map_image] arg0.fv == ELL2U(FFROM(seq(clamped)))
+//@   ensures [C07:public_key_is_32_field_bytes] exists(c, seq(publicKey) == FBYTES(c))
+
+// the "dirty" public key (scalar multiplication plus a low order point chosen by the low 3 key bits)
+// enters as an uninterpreted function of the private key; its algebra is outside the contracts
+//@ spec fn DIRTYU(priv BSeq) Int
+//@ func scalarBaseMultDirty(privateKey) (u)
+//@   serves C07
+//@   nobody edwards25519 point arithmetic is not modelled; only the data flow into uToRepresentative is decided
+//@   requires privateKey != nil
+//@   ensures u != nil && fresh(u) && u.fv == DIRTYU(seq(privateKey))
+
+//@ func ScalarBaseMult(publicKey, representative, privateKey, tweak) (ok)
+//@   serves C07 C10
+//@   requires publicKey != nil && representative != nil && privateKey != nil && publicKey != representative
+//@   modifies *publicKey, *representative
+//@   ghost U := DIRTYU(seq(privateKey))
+//@   ensures [C07:exists_iff_square] ok == (FISSQ(1, FMUL(FMUL(U, FADD(U, FE_A())), FE_NEG2())) == 1)
+//@   ensures [C07:public_key_is_the_dirty_u] ok ==> seq(publicKey) == FBYTES(U)
+//@   ensures [C07:representative_of_that_u] ok ==> forall(i, 0, 31, at(seq(representative), i) == at(FBYTES(REPVAL(U, tweak % 2)), i)) && at(seq(representative), 31) == bor(at(FBYTES(REPVAL(U, tweak % 2)), 31), band(tweak, 192))
+//@   ensures [C07:nothing_written_on_failure] !ok ==> seq(publicKey) == old(seq(publicKey)) && seq(representative) == old(seq(representative))
